@@ -34,6 +34,8 @@ import (
 	"github.com/pingcap/kvproto/pkg/encryptionpb"
 	"github.com/pingcap/kvproto/pkg/metapb"
 	"github.com/pingcap/kvproto/pkg/pdpb"
+	"github.com/syndtr/goleveldb/leveldb"
+	"github.com/syndtr/goleveldb/leveldb/opt"
 	"github.com/tikv/pd/server"
 	"github.com/tikv/pd/server/config"
 	"github.com/tikv/pd/server/core"
@@ -80,7 +82,7 @@ type BootCase struct {
 	Reelect bool   `json:"reelect,omitempty"` // the leader steps down and is re-elected, then requests are repeated
 	Fault   *Fault `json:"fault,omitempty"`   // first of all: one valid request with an etcd fault injected into one of its etcd requests
 	// RSFault: the member-local region store (leveldb "region-meta", a cache of the regions kept in
-	// etcd) is broken for the whole case: its leveldb handle is closed before the first request.
+	// etcd) rejects every write for the whole case (re-opened read-only before the first request).
 	RSFault bool `json:"rsFault,omitempty"`
 	// RaceFaults[i]: the guarded bootstrap txn of race request i fails with an error before it is
 	// sent (timeout / lost connection on the way to etcd) — while the other requests' txns go through.
@@ -1182,8 +1184,17 @@ func runBootOn(f *liveFix, c BootCase) (vkit.Info, error) {
 	}
 	// ---- a broken member-local region store for the whole case
 	if c.RSFault && c.Fault == nil {
+		// every WRITE to the store fails (the post-commit copy of the first region), reads work: the
+		// leveldb is re-opened read-only under the storage. (A store whose reads fail too makes
+		// RaftCluster.Start fail in LoadRegionsOnce since LoadRange reports iterator errors — a different
+		// situation, not exercised.)
 		if rs := f.cur.GetRegionStorage(); rs != nil {
-			rs.LeveldbKV.Close()
+			rs.LeveldbKV.DB.Close()
+			ro, err := leveldb.OpenFile(f.curDir, &opt.Options{ReadOnly: true})
+			if err != nil {
+				return info, errInconclusive
+			}
+			rs.LeveldbKV.DB = ro
 			b.rsFault = true
 			info.Class("region-store-broken")
 		}
